@@ -6,25 +6,32 @@
   Spec:  `LeavesOf`, `ConnU`, `UEndpoint` (SpecFlat.lean), `WF`, `IdsUnique`, `Unique`, `Acyclic`,
          `Named`, `Flat` (Spec.lean).
 
-  Hypotheses (`Hyp d`): `WF d`, `IdsUnique d` (instance / cable identifiers are netlist-wide object
+  Hypotheses (`Hyp d` and `Named d`): `WF d`, `IdsUnique d` (instance / cable identifiers are netlist-wide object
   identities), `Unique d` (the netlist is uniquified), `Acyclic d`, `Named d` (instances and cables have
   non-empty names without '/'); all decidable and evaluated by the driver / harness on every input,
   except `Acyclic` and `Unique`, which the harness checks on the live netlist.
-  `(flatten fuel d).finished`: the work list ran empty (reported by the driver, checked by the
-  harness for fuel = number of instances + 5).
+  `(flatten fuel d).finished`: the work list ran empty; `flatten_finishes`: it does whenever
+  fuel > number of instances (the harness passes number of instances + 5 and checks the flag).
 -/
 import Spydr.Xform.LemmasFlatWF
+import Spydr.Xform.LemmasFlatFuel
+import Spydr.Xform.LemmasFlatPath
 
 namespace Spydr.Xform
+
+/-- Fuel: one more iteration than the netlist has instances empties the work list
+    (`allInsts d` = the children of all definitions; the harness passes that number + 5). -/
+theorem flatten_finishes (fuel : Nat) (d : Design) (hyp : Hyp d) (hnamed : Named d) (hf : (allInsts d).length < fuel) :
+    (flatten fuel d).finished = true := flatten_finished hyp hnamed hf
 
 /-- After flatten the top definition holds exactly one instance per leaf occurrence of the original
     design, named by the slash-joined instance path, with the same leaf definition and data; no
     hierarchical instance remains (`LeavesOf.flat`), no identifier occurs twice.  Together with
     `path_unique` (a leaf occurrence is determined by the identifier of its instance) this is a
     bijection between the leaf occurrences of `d` and the children of the flattened top. -/
-theorem flatten_leaves (fuel : Nat) (d : Design) (hyp : Hyp d) (hfin : (flatten fuel d).finished = true) :
+theorem flatten_leaves (fuel : Nat) (d : Design) (hyp : Hyp d) (hnamed : Named d) (hfin : (flatten fuel d).finished = true) :
     LeavesOf d (flatten fuel d).design := by
-  obtain ⟨moved, inv⟩ := fLoop_invA hyp fuel (fInit d) [] (FInvA.init hyp)
+  obtain ⟨moved, inv⟩ := fLoop_invA hyp hnamed fuel (fInit d) [] (FInvA.init hyp)
   have hq : (fLoop fuel (fInit d)).queue = [] := by simpa [flatten] using hfin
   exact inv.leavesOf hyp hq
 
@@ -41,17 +48,37 @@ theorem leaf_occurrence_unique (d : Design) (hyp : Hyp d) {cs cs' : List Inst} {
     pin (from outside or from inside) / top-level port bit"; flatten keeps the identifier of every
     instance, so the endpoints `P iid port bit` / `T port bit` are the same nodes before and after.
     Holds for every fuel (also for an unfinished walk). -/
-theorem flatten_preserves_conn (fuel : Nat) (d : Design) (hyp : Hyp d) (a b : UNode)
+theorem flatten_preserves_conn (fuel : Nat) (d : Design) (hyp : Hyp d) (hnamed : Named d) (a b : UNode)
     (ha : UEndpoint d a) (hb : UEndpoint d b) :
     ConnU d a b ↔ ConnU (flatten fuel d).design a b := by
-  obtain ⟨moved, invA, invB⟩ := fLoop_invAB hyp fuel (fInit d) [] (FInvA.init hyp) (FInvB.init hyp)
+  obtain ⟨moved, invA, invB⟩ := fLoop_invAB hyp hnamed fuel (fInit d) [] (FInvA.init hyp) (FInvB.init hyp)
   exact conn_final hyp invA invB ha hb
+
+/-- The two semantics agree (DESIGN's `connU_eq_conn`): on a uniquified design with netlist-wide
+    identifiers, hierarchical pins / top-level port bits are connected in the path-based elaboration
+    (`HConn`, SpecElab) iff their images under the path-forgetting map are connected in `ConnU`. -/
+theorem connU_eq_conn (d : Design) (hyp : Hyp d) {a b : HNode} (va : ValidH d a) (vb : ValidH d b)
+    (ha : ∀ p ci wi, a ≠ .wire p ci wi) (hb : ∀ p ci wi, b ≠ .wire p ci wi) :
+    HConn d a b ↔ ConnU d (forget d a) (forget d b) := hconn_iff_connU hyp va vb ha hb
+
+/-- C09 in the semantics of the elaboration: two endpoints of the hierarchical design (pin bits of
+    leaf occurrences, addressed by their instance path, and top-level port bits) are electrically
+    connected in the elaboration of `d` iff the corresponding endpoints (`flatImage`: the same
+    instance identifier directly below top) are connected in the elaboration of the flattened
+    design — including nets that cross several levels, feed through a cell or stop at an unconnected
+    port, since `HConn` is the full equivalence closure over all hierarchical wires and pins. -/
+theorem flatten_preserves_elab_conn (fuel : Nat) (d : Design) (hyp : Hyp d) (hnamed : Named d)
+    (hfin : (flatten fuel d).finished = true) (a b : HNode) (ha : IsEndpoint d a) (hb : IsEndpoint d b) :
+    HConn d a b ↔ HConn (flatten fuel d).design (flatImage a) (flatImage b) := by
+  obtain ⟨moved, invA, invB⟩ := fLoop_invAB hyp hnamed fuel (fInit d) [] (FInvA.init hyp) (FInvB.init hyp)
+  have hq : (fLoop fuel (fInit d)).queue = [] := by simpa [flatten] using hfin
+  exact flatten_hconn hyp invA invB hq ha hb
 
 /-- The netlist stays well-formed (in particular no lifted inner pin, no pin of a removed shell and
     no pin twice on the wires of the top definition). -/
-theorem flatten_wf (fuel : Nat) (d : Design) (hyp : Hyp d) (hfin : (flatten fuel d).finished = true) :
+theorem flatten_wf (fuel : Nat) (d : Design) (hyp : Hyp d) (hnamed : Named d) (hfin : (flatten fuel d).finished = true) :
     WF (flatten fuel d).design := by
-  obtain ⟨moved, invA, invB⟩ := fLoop_invAB hyp fuel (fInit d) [] (FInvA.init hyp) (FInvB.init hyp)
+  obtain ⟨moved, invA, invB⟩ := fLoop_invAB hyp hnamed fuel (fInit d) [] (FInvA.init hyp) (FInvB.init hyp)
   have hq : (fLoop fuel (fInit d)).queue = [] := by simpa [flatten] using hfin
   exact wf_final hyp invA invB hq
 
@@ -108,8 +135,8 @@ theorem exC09_unique : Unique exC09 := by
   · have : c ∈ ([] : List Inst) := hc
     simp at this
 
-example : Hyp exC09 :=
-  { wf := by decide, ids := by decide, uniq := exC09_unique, acyc := ⟨fun i => i, by decide⟩, named := by decide }
+example : Hyp exC09 ∧ Named exC09 :=
+  ⟨{ wf := by decide, ids := by decide, uniq := exC09_unique, acyc := ⟨fun i => i, by decide⟩ }, by decide⟩
 
 example : (flatten 10 exC09).finished = true ∧
     ((flatten 10 exC09).design.defs 2).children.map (·.name) = [some "a", some "b", some "s/u"] ∧
